@@ -147,7 +147,7 @@ def run(R):
     R.coq_files(FILES)
     R.coq_property()
     R.audit()
-    n = 300 if R.tier == "quick" else 5000
+    n = 300 if R.tier == "quick" else 3000
     obs = observe(R, n)
     total = 0
     if obs:
